@@ -1013,18 +1013,27 @@ class Explorer(object):
                     for b in list(sh.jo_participants or []):
                         self.apply(c, 'retired', b)
                     break
-                h = c.heights[-1] + rnd.choice([D('0.02'), D('0'), D('-0.02'), D('-0.10'), D('0.05')])
+                F = (lambda x: float(x)) if self.float_heights else (lambda x: x)
+                h = c.heights[-1] + F(rnd.choice([D('0.02'), D('0'), D('-0.02'), D('-0.10'), D('0.05')]))
                 tb = self.tied_best(sh)
                 if tb is not None and rnd.random() < 0.3:
-                    h = tb + rnd.choice([D('0'), D('0'), D('0.01'), D('-0.01')])        # at / next to the tied best
+                    h = tb + F(rnd.choice([D('0'), D('0'), D('0.01'), D('-0.01')]))        # at / next to the tied best
+                if self.float_heights:
+                    h = round(h, 2)
                 if h <= 0:
-                    h = D('0.50')
+                    h = F(D('0.50'))
             else:
                 if len(c.heights) >= max_reg and c.state != 'won':
                     # last regular height: everybody still in fails out or retires
                     pass
-                h = (c.heights[-1] + rnd.choice([D('0.05'), D('0.05'), D('0.03'), D('0.01')])) if c.heights else \
-                    rnd.choice([D('1.00'), D('1.00'), D('2.10'), D('4.40'), D('9.90'), D('9.96'), D('99.95'), D('181.00'), D('0.50')])
+                if not self.float_heights:
+                    h = (c.heights[-1] + rnd.choice([D('0.05'), D('0.05'), D('0.03'), D('0.01')])) if c.heights else \
+                        rnd.choice([D('1.00'), D('1.00'), D('2.10'), D('4.40'), D('9.90'), D('9.96'), D('99.95'), D('181.00'), D('0.50')])
+                else:
+                    # bars given as floats, as the repository's own tests do; mostly one-centimetre steps (100 * 2.01 is
+                    # 200.99999999999997: a comparison in truncated centimetres loses such a rise)
+                    h = round(c.heights[-1] + rnd.choice([0.01, 0.01, 0.01, 0.02, 0.03, 0.05]), 2) if c.heights else \
+                        rnd.choice([2.00, 2.00, 2.02, 2.04, 2.25, 2.27, 2.29, 1.12, 1.10, 4.59, 5.05, 1.99, 0.57, 1.00])
             if not self.apply(c, 'set_bar_height', h):
                 break
             places = {j.bib: j.place for j in c.jumpers}
@@ -1043,7 +1052,8 @@ class Explorer(object):
             while any(plan.values()):
                 if not in_jo and rnd.random() < 0.04 and c.state == 'started':
                     # an official mistypes the next bar (1.57 for 1.75): refused, and nothing may be left behind by it
-                    self.apply(c, 'set_bar_height', c.heights[-1] - rnd.choice([D('0.18'), D('0.05'), D('0'), D('1.00')]))
+                    self.apply(c, 'set_bar_height', round(c.heights[-1] - float(rnd.choice([D('0.18'), D('0.05'), D('0'), D('1.00')])), 2) if self.float_heights
+                               else c.heights[-1] - rnd.choice([D('0.18'), D('0.05'), D('0'), D('1.00')]))
                 b = rnd.choice([b for b, q in plan.items() if q])
                 t = plan[b].pop(0)
                 m = {'o': 'cleared', 'x': 'failed', '-': 'passed', 'r': 'retired'}[t]
